@@ -449,12 +449,31 @@ func (c *ctx) clientStreams() {
 	for i := 0; i < c.pick(60, 600); i++ {
 		c.clientStreamCase("client", 1+c.rng.Intn(5), i%2 == 0)
 	}
-	// large frames through the client (default scanner buffer must hold a maximal frame)
+	c.clientBigFrames("client")
+}
+
+// clientBigFrames: the largest frames a device may send (2046..2048 data bytes; 2055 bytes on the wire), as plain and
+// as measurement messages, between small frames, under several read fragmentations: the client's scanner must hold them
+func (c *ctx) clientBigFrames(kind string) {
 	for _, n := range []int{2046, 2047, 2048} {
-		m := xsens.NewMessage(xsens.MessageIdentifier(0x10), c.payload(n))
-		s := append(append([]byte(nil), m...), xsens.NewMessage(0x30, nil)...)
-		c.emitClient("client", s, []int{700, 700, 700}, io.EOF, false, nil,
-			[]cop{{kind: "receive"}, {kind: "rawmsg"}, {kind: "receive"}, {kind: "msgid"}, {kind: "receive"}})
+		plain := []byte(xsens.NewMessage(xsens.MessageIdentifier(0x10), c.payload(n)))
+		// a measurement payload of exactly n bytes: 4-byte packets (packet counter with 1 data byte ... kept simple: status bytes)
+		var pl []byte
+		for len(pl)+4 <= n {
+			pl = append(pl, 0xe0, 0x10, 0x01, byte(len(pl)))
+		}
+		for len(pl) < n {
+			pl = append(pl, 0)
+		}
+		meas := []byte(xsens.NewMessage(xsens.MessageIdentifierMTData2, pl))
+		for _, big := range [][]byte{plain, meas} {
+			s := append([]byte(xsens.NewMessage(0x31, nil)), big...)
+			s = append(s, xsens.NewMessage(0x30, nil)...)
+			for _, sch := range [][]int{nil, {700, 700, 700, 700}, {4096, 4096}, {1, 2053, 1, 1, 7}} {
+				ops := []cop{{kind: "receive"}, {kind: "receive"}, {kind: "rawmsg"}, {kind: "msgid"}, {kind: "scan"}, {kind: "rawpkt"}, {kind: "receive"}, {kind: "msgid"}, {kind: "receive"}}
+				c.emitClient(kind, s, sch, io.EOF, false, nil, ops)
+			}
+		}
 	}
 }
 
